@@ -243,6 +243,10 @@ func (g *gen) cluster(name string, seed int64, class int) *Plan {
 		p.SnapCount = 2 + g.r.Intn(2)
 		p.BatchSize = 1
 		st = append(st, Step{Op: "pick", To: "follower"})
+		if g.r.Intn(2) == 0 {
+			// ... and its executor is held meanwhile: the snapshot arrives while blocks handed over earlier are still unexecuted
+			st = append(st, Step{Op: "policy", N: -1, Exec: "hold", Report: "hold"})
+		}
 		t0 := sub(1+g.r.Intn(3), "leader")
 		st = append(st, Step{Op: "waitTx", Txs: t0})
 		st = append(st, Step{Op: "isolate", N: -1})
